@@ -355,6 +355,7 @@ func main() {
 	writeIfChanged(filepath.Join(outDir, "ConfigLoad.lean"), genConfigLoad(repoRoot))       // C14 (extract/configload.go): never exits
 	writeIfChanged(filepath.Join(outDir, "ConfigEnv.lean"), genConfigEnv(repoRoot))         // C14 (extract/configenv.go): never exits
 	writeIfChanged(filepath.Join(outDir, "OpenAPIRanges.lean"), genOpenAPIRanges(repoRoot)) // C07 (extract/oaranges.go): never exits
+	writeIfChanged(filepath.Join(outDir, "OpenAPIBuild.lean"), genOpenAPIBuild(repoRoot))   // C07 (extract/oabuild.go): never exits
 	// C15 / C17 (extract/compress.go, extract/gates.go, walker extract/mwskel.go): never exit either
 	writeIfChanged(filepath.Join(outDir, "Compress.lean"), genCompress(repoRoot))
 	writeIfChanged(filepath.Join(outDir, "Gates.lean"), genGates(repoRoot))
